@@ -4,6 +4,7 @@ import concurrent.futures as cf
 import json
 import os
 import random
+import shutil
 import sys
 import time
 import traceback
@@ -154,6 +155,16 @@ class Ctx:
             return tlc.run(module, cfg, workers=1, env={'TRACE_FILE': p}, timeout=timeout, coverage=False, heap='3g')
         with cf.ThreadPoolExecutor(max_workers=jobs) as ex:
             results = list(ex.map(one, paths))
+        for k, r in enumerate(results):
+            if r.error and 'heap space' in str(r.error):
+                # a chunk that did not fit next to its neighbours: once more, alone, with a large heap (the failing file is kept for inspection)
+                try:
+                    os.makedirs(REPLAY, exist_ok=True)
+                    shutil.copy(paths[k], os.path.join(REPLAY, 'heap-%s-%s.ndjson' % (module, self.pid)))
+                except Exception:
+                    pass
+                self.log('V %s: chunk %d ran out of heap (%d bytes of trace); retried alone with 12g' % (module, k, os.path.getsize(paths[k])))
+                results[k] = tlc.run(module, cfg, workers=1, env={'TRACE_FILE': paths[k]}, timeout=timeout, coverage=False, heap='12g')
         for ch, r in zip(chunks, results):
             if r.error or r.violated:
                 self.machinery('trace validation %s failed: %s' % (module, r.error or ('violated ' + str(r.violated) + '\n' + (r.trace_text or '')[:3000])))
